@@ -14,7 +14,7 @@ from av import digest, gen, ref
 MANIFEST_ENTRY = {
     "category": "exploration",
     "technique": "history monitor: seed-chosen interleavings of runs of several projects in one process with bit-exact output digests, deep structural snapshots of every input before/after each call, global-state and audit-hook (file write) observation, replay of the same runs in a fresh interpreter with a different hash seed, and deep-copy / pickle / save-load of built models and results; a directly constructed Model must not share state with the caller (model-side edits as the optimizer makes them)",
-    "text": "Each case builds 2-3 projects (generated models with and without program sets, plus a library model) and executes a seed-chosen sequence of 6-9 runs that interleaves them. Every run's outputs are digested array by array (parameter-less links keyed by end points); equal (project, configuration) must give equal digests within the process and in a fresh subprocess started with another PYTHONHASHSEED. Around every call the parameter set, program set, instructions, framework, data and settings are snapshotted by a canonical structural walk and must be unchanged; numpy's global generator state, the module-level settings dicts and the logger level must be unchanged and no file may be opened for writing (audit hook). A built, unprocessed Model is deep-copied and pickled, all three are processed and must agree bit for bit; a Result saved with sc.saveobj and loaded back must hold the same arrays. Histories also contain shipped (corpus) models under perturbation. The Model is additionally constructed directly, its own instructions / program set / framework are edited the way the optimizer does after its last iteration, and the caller's objects must be structurally unchanged. Histories contain a project copied with sc.dcp from one that is also run and then edited in place (a parameter function gains a dependency on a later parameter): its runs must equal those of the same construction in a fresh process. A deep copy of a built model is also given other instructions: it must run like a model built with them, and its finished arrays must not move when the original is processed afterwards. A finished result is deep-copied, pickled and saved: the original and every copy still say whether the run used programs.",
+    "text": "Each case builds 2-3 projects (generated models with and without program sets, plus a library model) and executes a seed-chosen sequence of 6-9 runs that interleaves them. Every run's outputs are digested array by array (parameter-less links keyed by end points); equal (project, configuration) must give equal digests within the process and in a fresh subprocess started with another PYTHONHASHSEED. Around every call the parameter set, program set, instructions, framework, data and settings are snapshotted by a canonical structural walk and must be unchanged; numpy's global generator state, the module-level settings dicts and the logger level must be unchanged and no file may be opened for writing (audit hook). A built, unprocessed Model is deep-copied and pickled, all three are processed and must agree bit for bit; a Result saved with sc.saveobj and loaded back must hold the same arrays. Histories also contain shipped (corpus) models under perturbation. The Model is additionally constructed directly, its own instructions / program set / framework are edited the way the optimizer does after its last iteration, and the caller's objects must be structurally unchanged. Histories contain a project copied with sc.dcp from one that is also run and then edited in place (a parameter function gains a dependency on a later parameter): its runs must equal those of the same construction in a fresh process. A deep copy of a built model is also given other instructions: it must run like a model built with them, and its finished arrays must not move when the original is processed afterwards. A finished result is deep-copied, pickled and saved: the original and every copy still say whether the run used programs. A third of the generated projects have their start year moved on its own right before the runs; settings are also compared attribute by attribute without reading any property.",
     "note": "Frameworks whose functions call rand/randn are excluded (the generator never emits them). BLAS threads are pinned to 1 in every worker.",
 }
 
